@@ -92,7 +92,17 @@ func VJoin() {
 	case 2:
 		ins[0] = v12input("p0", &xs0, ns[0], capc, &sent[0])
 		ins[1] = v12input("p1", &xs1, ns[1], cap1, &sent[1])
-		out = Join(ctx, (<-chan v12elem)(ins[0]), (<-chan v12elem)(ins[1]))
+		if vrt.Param("spread", 0) == 1 {
+			// the inputs are those of the call: a caller may pass a slice with `...`
+			// and reuse it as soon as Join has returned
+			args := []<-chan v12elem{ins[0], ins[1]}
+			out = Join(ctx, args...)
+			idle := make(chan v12elem)
+			close(idle)
+			args[0], args[1] = idle, idle
+		} else {
+			out = Join(ctx, (<-chan v12elem)(ins[0]), (<-chan v12elem)(ins[1]))
+		}
 	default:
 		ins[0] = v12input("p0", &xs0, ns[0], capc, &sent[0])
 		ins[1] = v12input("p1", &xs1, ns[1], cap1, &sent[1])
